@@ -307,3 +307,120 @@ class GoTest(Part):
         if replay:
             extra['VERIF_REPLAY'] = os.path.abspath(replay)
         ctx.run_part(self.name, [b, '-test.run', self.runpat, '-test.timeout', '0', '-test.count', '1'], extra)
+
+
+class McPart(Part):
+    """Exploration of a package rewritten by mcrewrite under the controlled scheduler.
+    Scenarios are distributed over worker processes (one scheduler per process)."""
+
+    def __init__(self, name, prop, pkg, harness_dirs, rewrite_cfg, thorough_only=False,
+                 deadline_quick=240, deadline_thorough=1500):
+        super().__init__(name, thorough_only)
+        self.prop = prop
+        self.pkg = pkg
+        self.harness_dirs = harness_dirs
+        self.rewrite_cfg = rewrite_cfg
+        self.deadline = {'quick': deadline_quick, 'thorough': deadline_thorough}
+
+    def build(self, ctx):
+        tool = os.path.join(ctx.scratch, 'mcrewrite')
+        if not os.path.exists(tool):
+            t = time.time()
+            p = subprocess.run(['go', 'build', '-o', tool, '.'], cwd=os.path.join(VERIF, 'tools/mcrewrite'),
+                               env=goenv(), stdout=subprocess.PIPE, stderr=subprocess.STDOUT, text=True)
+            if p.returncode != 0:
+                raise ToolError('building mcrewrite failed:\n' + p.stdout)
+            ctx.log('built mcrewrite in %.1fs' % (time.time() - t))
+        out = os.path.join(ctx.scratch, 'rw-' + self.name)
+        cfgp = os.path.join(ctx.scratch, 'rwcfg-%s.json' % self.name)
+        with open(cfgp, 'w') as f:
+            json.dump(self.rewrite_cfg, f)
+        t = time.time()
+        p = subprocess.run([tool, '-dir', os.path.join(ctx.repo, self.pkg), '-out', out, '-config', cfgp],
+                           cwd=ctx.repo, env=goenv(), stdout=subprocess.PIPE, stderr=subprocess.PIPE, text=True)
+        if p.returncode != 0:
+            raise ToolError('mcrewrite failed on %s:\n%s' % (self.pkg, p.stderr[-4000:]))
+        ctx.log('rewrote %s in %.1fs' % (self.pkg, time.time() - t))
+        mapping = json.loads(p.stdout)
+        m = ctx.base_mapping()
+        for orig, new in mapping.items():
+            m[os.path.relpath(orig, ctx.repo)] = new
+        for sub in ('', 'vtime', 'vsignal', 'vexec', 'vhttp'):
+            for f in glob.glob(os.path.join(VERIF, 'mc', sub, '*.go')):
+                if f.endswith('_test.go'):
+                    continue
+                m[os.path.join('internal/verifmc', sub, os.path.basename(f))] = f
+        return ctx.build_test(self.name, self.pkg, self.harness_dirs, extra_mapping=m)
+
+    def warm(self, ctx):
+        self.build(ctx)
+
+    def run(self, ctx, replay):
+        b = self.build(ctx)
+        base_env = {'VERIF_MC_PROP': self.prop}
+        args = [b, '-test.run', '^TestMC$', '-test.timeout', '0', '-test.count', '1']
+        if replay:
+            e = ctx.env(self.name, base_env | {'VERIF_REPLAY': os.path.abspath(replay)})
+            p = subprocess.run(args, env=e, cwd=ctx.scratch, stdout=subprocess.PIPE, stderr=subprocess.STDOUT, text=True)
+            sys.stdout.write(p.stdout)
+            for line in p.stdout.splitlines():
+                if line.startswith('V|'):
+                    f = line.split('|', 3)
+                    ctx.violations.append((f[1], f[2], f[3]))
+            ctx.add_part(self.name, {'coverage': {'evaluations': 1, 'rule': 'replay of one recorded schedule', 'samples': [replay]}})
+            return
+        e = ctx.env(self.name, base_env | {'VERIF_MC_SCENARIO': 'list'})
+        p = subprocess.run(args, env=e, cwd=ctx.scratch, stdout=subprocess.PIPE, stderr=subprocess.STDOUT, text=True)
+        scen = [l.split()[1:3] for l in p.stdout.splitlines() if l.startswith('SCENARIO ')]
+        if p.returncode != 0 or not scen:
+            raise ToolError('cannot list scenarios:\n' + p.stdout[-3000:])
+        only = os.environ.get('VERIF_MC_ONLY')
+        if only:
+            scen = [s for s in scen if only in s[1]]
+        ctx.log('%d scenarios' % len(scen))
+        from concurrent.futures import ThreadPoolExecutor
+        dl = self.deadline[ctx.tier]
+
+        def one(sc):
+            idx, nm = sc
+            pname = '%s-%s' % (self.name, idx)
+            env = ctx.env(pname, base_env | {'VERIF_MC_SCENARIO': idx, 'VERIF_MC_DEADLINE_S': str(dl), 'GOMAXPROCS': '1'})
+            t = time.time()
+            pr = subprocess.run(args, env=env, cwd=ctx.scratch, stdout=subprocess.PIPE, stderr=subprocess.STDOUT, text=True, errors='replace')
+            return sc, pname, env['VERIF_EVIDENCE_PART'], pr, time.time() - t
+
+        with ThreadPoolExecutor(max_workers=max(1, ctx.ncpu - 1)) as ex:
+            results = list(ex.map(one, scen))
+        merged = {'evaluations': 0, 'transitions': 0, 'states': 0, 'traces_validated_against_impl': 0, 'distinct_nontrivial': 0}
+        samples, notes, rules = [], [], []
+        exhaustive = True
+        for sc, pname, evp, pr, dt in results:
+            for line in pr.stdout.splitlines():
+                if line.startswith('V|'):
+                    f = line.split('|', 3)
+                    if len(f) == 4:
+                        ctx.violations.append((f[1], f[2], f[3]))
+                if line.startswith('MC ') and os.environ.get('VERIF_VERBOSE'):
+                    print(line)
+            if pr.returncode != 0 or not os.path.exists(evp):
+                raise ToolError('scenario %s failed (exit %d):\n%s' % (sc[1], pr.returncode, '\n'.join(pr.stdout.splitlines()[-40:])))
+            ev = json.load(open(evp))
+            c = ev['coverage']
+            for k in merged:
+                merged[k] += int(c.get(k, 0))
+            samples += c.get('samples', [])[:1]
+            notes += c.get('notes', [])
+            rules.append(c.get('rule', ''))
+            if c.get('exhaustive') is False:
+                exhaustive = False
+        cov = dict(merged)
+        cov['scenarios'] = len(scen)
+        cov['samples'] = samples[:6]
+        cov['rule'] = 'for each of %d scenarios: %s' % (len(scen), rules[0][:900] if rules else '')
+        cov['exhaustive'] = exhaustive
+        if notes:
+            cov['notes'] = notes[:40]
+        ctx.add_part(self.name, {'coverage': cov, 'assumptions': [
+            'schedules are explored at channel-operation granularity under sequential consistency; data races are left to the separate free-running -race pass',
+            'the rewritten package (mcrewrite output) behaves like the original: checked by the binding battery (plain vs. rewritten build)']})
+        ctx.log('mc part %s: %s' % (self.name, ' '.join('%s=%s' % kv for kv in merged.items())))
